@@ -27,12 +27,15 @@ CHECKS = [
         "(original order), dropped codes affect no slot, flox's sort+reduceat engine equals that contract (stable sort proved), "
         "engine independence at kernel level, and the eager pipeline equals the NumPy-per-group specification; tied to /repo by the "
         "regenerated registry/_initialize_aggregation tables and by differential execution of groupby_reduce on all engines "
-        "against the Lean model and a NumPy oracle.", CORR, "DESIGN.md §7 C01"),
+        "against the Lean model and a NumPy oracle, of the engines called directly (generic_aggregate, every slot against the "
+        "Lean engine models) and of calls flox documents a refusal for (refused or answered correctly).", CORR, "DESIGN.md §7 C01"),
     chk("C02",
         "Lean theorems: for every chunking and every split_every the map-reduce plan with simple combine yields, in every slot, "
         "blockVal of all members (independent of chunks/tree) and hence the eager result; generated rows are shown to have a proven "
         "shape; the other plans (combine-time reindex, cohorts, blockwise, grouped combine) are tied by differential execution "
-        "of the real graph against the Lean pipeline model (which reproduces them exactly) and the NumPy oracle.", CORR, "DESIGN.md §7 C02"),
+        "of the real graph against the Lean pipeline model (which reproduces them exactly) and the NumPy oracle; the streams include "
+        "RangeIndex / narrow-dtype / fractional requested labels, the label -1, integer data on the default (numbagg) engine and "
+        "calls flox documents a refusal for (refused or answered correctly).", CORR, "DESIGN.md §7 C02"),
     chk("C03",
         "Lean theorems: any bracketing of the n-ary combine over ordered parts gives blockVal of the concatenated members "
         "(PTree.eval_eq, no commutativity assumed), the tree built by treeReduce for any split_every gives the same Inter; real graphs "
